@@ -490,15 +490,15 @@ int main(int argc, char** argv) {
 #ifdef VSIM_TSAN_BUILD
   e.name = "sim-par-tsan";
   e.quick_runs = 60000;
-  e.thorough_runs = 1000000;
+  e.thorough_runs = 700000;
 #else
   e.name = "sim-par";
   e.quick_runs = 200000;
-  e.thorough_runs = 3000000;
+  e.thorough_runs = 2500000;
 #endif
   e.run = run;
   e.quick_cap_s = 120;
-  e.thorough_cap_s = 1500;
+  e.thorough_cap_s = 900;
   e.rule =
       "one run = one configuration (function of the three, IntT of six, range length 0..6 [thorough 0..12, occasionally 13..120 with up to 8 threads] at offset 0/1/100/near the type's maximum/negative (ending at -1, 0 or 1), block size, "
       "1..4 threads or 0=hardware_concurrency, set of values whose callback returns true, progress function nullptr/recorder/default) executed under one seeded "
